@@ -280,7 +280,23 @@ where
             rep.cap(&format!("schedule budget hit after {} schedules ({} prefixes pending)", out.schedules, stack.len() + 1));
             break;
         }
-        let res = run_one(cfg, |em| exec(&prefix, em));
+        let mut res = run_one(cfg, |em| exec(&prefix, em));
+        // executions are deterministic: a run that did not follow its prefix was disturbed from outside
+        // (a starved machine makes a granted thread look stalled); such a run is repeated, twice at most
+        for _ in 0..2 {
+            let followed = res.last("trace").is_some_and(|tr| {
+                tr["prefix_error"].is_null() && {
+                    let ds = tr["decisions"].as_array().cloned().unwrap_or_default();
+                    prefix.iter().enumerate().all(|(i, want)| ds.get(i).is_some_and(|d| d["enabled"].as_array().and_then(|e| e.get(*want)).and_then(Value::as_u64) == d["chosen"].as_u64()))
+                }
+            });
+            if followed || res.last("trace").is_none() {
+                break;
+            }
+            rep.notes.push("a run that did not follow its schedule prefix (machine load) was repeated".into());
+            rep.notes.dedup();
+            res = run_one(cfg, |em| exec(&prefix, em));
+        }
         out.schedules += 1;
         rep.evaluations += 1;
         let Some(tr) = res.last("trace") else {
@@ -427,7 +443,7 @@ mod pool_sc {
             };
             out.lock().unwrap().push(("scheduler".into(), txt));
         });
-        let tr = drive(prefix, 200, Duration::from_millis(300));
+        let tr = drive(prefix, 200, Duration::from_millis(2500));
         let mut o = out.lock().unwrap().clone();
         o.sort();
         em.emit(json!({"t":"out","results": o.iter().map(|(a, b)| json!([a, b])).collect::<Vec<_>>(), "order": log_json()}));
@@ -559,7 +575,7 @@ mod mig_sc {
                 OUTSIDE.lock().unwrap().push((TID.with(Cell::get).unwrap_or(99), sus, co));
             });
         }
-        let tr = drive(prefix, 200, Duration::from_millis(300));
+        let tr = drive(prefix, 200, Duration::from_millis(2500));
         let mut v = trace_json(&tr);
         v["t"] = json!("trace");
         let stuck = tr.deadlock || !tr.stalled.is_empty();
@@ -633,6 +649,103 @@ mod mig_sc {
     }
 }
 
+mod smig_sc {
+    use super::*;
+    use open_coroutine_core::scheduler::Scheduler;
+
+    struct Shared(*mut Scheduler<'static>);
+    unsafe impl Send for Shared {}
+    impl Shared {
+        fn ptr(&self) -> *mut Scheduler<'static> {
+            self.0
+        }
+    }
+    /// (thread, "id=result") of every result a scheduling call reported
+    static REPORTED: Mutex<Vec<(usize, String)>> = Mutex::new(Vec::new());
+    /// bodies that ran to their end
+    static ENDED: Mutex<Vec<usize>> = Mutex::new(Vec::new());
+
+    /// C10 on two schedulers whose ready queues steal from each other: scheduler A holds coroutine X
+    /// (yields `yields` times, then returns 1) and Y (returns 2 at once); scheduler B holds nothing.
+    /// Each scheduler is driven by its own thread; B may take X over while it stands in A's ready queue.
+    pub fn exec(prefix: &[usize], em: &mut Emitter, yields: usize) {
+        std::panic::set_hook(Box::new(|_| {}));
+        open_coroutine_core::verif::clock_enable(T0);
+        init(&["sched:pop"], false);
+        let a: &'static mut Scheduler<'static> = Box::leak(Box::new(Scheduler::new("smig-a".to_string(), 64 * 1024)));
+        let b: &'static mut Scheduler<'static> = Box::leak(Box::new(Scheduler::new("smig-b".to_string(), 64 * 1024)));
+        let x = a.submit_co(move |s, ()| {
+            for _ in 0..yields {
+                s.suspend();
+            }
+            ENDED.lock().unwrap().push(1);
+            Some(1)
+        }, None, None).expect("submit x");
+        let y = a.submit_co(|_, ()| {
+            ENDED.lock().unwrap().push(2);
+            Some(2)
+        }, None, None).expect("submit y");
+        for s in [Shared(std::ptr::from_mut(a)), Shared(std::ptr::from_mut(b))] {
+            let _ = spawn(move || {
+                let sc = unsafe { &mut *s.ptr() };
+                let me = TID.with(Cell::get).unwrap_or(99);
+                for _ in 0..2 {
+                    if let Ok(rs) = sc.try_schedule() {
+                        for (id, r) in rs {
+                            let who = if id == x { "X" } else if id == y { "Y" } else { "?" };
+                            REPORTED.lock().unwrap().push((me, format!("{who}={r:?}")));
+                        }
+                    }
+                }
+            });
+        }
+        let tr = drive(prefix, 200, Duration::from_millis(2500));
+        let mut v = trace_json(&tr);
+        v["t"] = json!("trace");
+        let mut rep = REPORTED.lock().unwrap().clone();
+        rep.sort();
+        let mut ended = ENDED.lock().unwrap().clone();
+        ended.sort_unstable();
+        em.emit(json!({"t":"out","reported": rep, "ended": ended, "order": log_json()}));
+        em.emit(v);
+    }
+
+    pub fn judge(yields: usize, prefix: &[usize], res: &ChildResult, rep: &mut Report) {
+        let scen = "ppx.schedmig";
+        let replay = json!({"engine":"seqx","scenario":scen,"schedule": prefix, "yields": yields});
+        if !res.exit.ok() {
+            rep.violation(&format!("{scen}/process-survives/{}", res.exit.describe()), format!("schedule prefix {prefix:?}: the process {}", res.exit.describe()), replay);
+            return;
+        }
+        let (Some(out), Some(tr)) = (res.last("out"), res.last("trace")) else {
+            rep.machinery_errors.push(format!("{scen}: incomplete records for prefix {prefix:?}"));
+            return;
+        };
+        let order: Vec<String> = out["order"].as_array().unwrap().iter().map(|x| x.as_str().unwrap().to_string()).collect();
+        let _ = rep.nontrivial.insert(order.join(","));
+        let sched = tr["decisions"].as_array().map(|d| d.iter().map(|d| format!("{}", d["chosen"])).collect::<Vec<_>>().join("")).unwrap_or_default();
+        if tr["deadlock"] == true || tr["stalled"].as_array().is_some_and(|s| !s.is_empty()) {
+            rep.violation(&format!("{scen}/scheduling-returns/-"), format!("schedule {sched}: thread(s) {} never came back from try_schedule; order {order:?}", tr["stalled"]), replay);
+            return;
+        }
+        rep.witness("schedules_judged");
+        let reported: Vec<(u64, String)> = out["reported"].as_array().unwrap().iter().map(|r| (r[0].as_u64().unwrap(), r[1].as_str().unwrap().to_string())).collect();
+        if out["ended"] != json!([1, 2]) {
+            rep.violation(&format!("{scen}/every-coroutine-completes-exactly-once/-"), format!("schedule {sched}: bodies that ran to their end: {} (expected X and Y once each)", out["ended"]), replay);
+            return;
+        }
+        let mut vals: Vec<&str> = reported.iter().map(|r| r.1.as_str()).collect();
+        vals.sort_unstable();
+        if vals != ["X=Ok(Some(1))", "Y=Ok(Some(2))"] {
+            rep.violation(&format!("{scen}/each-result-is-reported-once-under-its-own-id/-"), format!("schedule {sched}: the scheduling calls reported {reported:?}, expected X=Ok(Some(1)) and Y=Ok(Some(2)) once each"), replay);
+            return;
+        }
+        if reported.iter().any(|r| r.0 == 1) {
+            rep.witness("schedules_in_which_the_idle_scheduler_finished_a_stolen_coroutine");
+        }
+    }
+}
+
 #[cfg(feature = "preemptive")]
 mod mon_sc {
     use super::*;
@@ -684,7 +797,7 @@ mod mon_sc {
                 std::mem::forget(sched);
             });
         }
-        let tr = drive(prefix, 80, Duration::from_millis(300));
+        let tr = drive(prefix, 80, Duration::from_millis(2500));
         let mut o = out.lock().unwrap().clone();
         o.sort();
         em.emit(json!({"t":"out","results": o, "order": log_json(), "suspends": suspends}));
@@ -758,6 +871,12 @@ pub fn run(scen: &str, tier: &str, rep: &mut Report) -> bool {
             rep.require(&["schedules_judged", "schedules_in_which_the_other_pools_scheduler_took_the_worker_over"]);
             (explore(|p, em| mig_sc::exec(p, em, yields), |p, r, rep| mig_sc::judge(yields, p, r, rep), rep, &cfg, bound, if thorough { 20_000 } else { 3000 }, deadline), bound)
         }
+        "ppx.schedmig" => {
+            let bound = None;
+            let yields = if thorough { 2 } else { 1 };
+            rep.require(&["schedules_judged", "schedules_in_which_the_idle_scheduler_finished_a_stolen_coroutine"]);
+            (explore(|p, em| smig_sc::exec(p, em, yields), |p, r, rep| smig_sc::judge(yields, p, r, rep), rep, &cfg, bound, if thorough { 20_000 } else { 3000 }, deadline), bound)
+        }
         #[cfg(feature = "preemptive")]
         "ppx.mon" => {
             let bound = Some(if thorough { 3 } else { 2 });
@@ -766,7 +885,7 @@ pub fn run(scen: &str, tier: &str, rep: &mut Report) -> bool {
         }
         _ => return false,
     };
-    rep.bounds = json!({"threads": if scen == "ppx.mon" { "2 scheduling threads + the monitor thread" } else if scen == "ppx.migrate" { "two scheduling threads, one per pool; the pools share the ready queue of coroutines" } else if scen == "ppx.wait2" { "waiter on the accepting pool + the thread scheduling a second pool that steals the task" } else { "waiter + scheduling thread" },
+    rep.bounds = json!({"threads": if scen == "ppx.mon" { "2 scheduling threads + the monitor thread" } else if scen == "ppx.schedmig" { "two scheduling threads, one per scheduler; the schedulers' ready queues steal from each other" } else if scen == "ppx.migrate" { "two scheduling threads, one per pool; the pools share the ready queue of coroutines" } else if scen == "ppx.wait2" { "waiter on the accepting pool + the thread scheduling a second pool that steals the task" } else { "waiter + scheduling thread" },
         "scheduling_points": "the crate's verif::point hooks listed in the scenario's filter", "preemption_bound": bound, "schedules": ex.schedules, "max_decisions_in_a_schedule": ex.max_decisions, "capped": ex.capped});
     rep.states = ex.schedules;
     rep.transitions = ex.schedules;
@@ -785,6 +904,7 @@ pub fn replay(scen: &str, v: &Value, em: &mut Emitter) -> bool {
         "ppx.stopwait" => pool_sc::exec(&prefix, em, true, true, false, false, false),
         "ppx.stop2" => pool_sc::exec(&prefix, em, true, true, false, true, false),
         "ppx.migrate" => mig_sc::exec(&prefix, em, v.get("yields").and_then(Value::as_u64).unwrap_or(1) as usize),
+        "ppx.schedmig" => smig_sc::exec(&prefix, em, v.get("yields").and_then(Value::as_u64).unwrap_or(1) as usize),
         #[cfg(feature = "preemptive")]
         "ppx.mon" => mon_sc::exec(&prefix, em, v.get("suspends").and_then(Value::as_u64).unwrap_or(0) as usize),
         _ => return false,
